@@ -745,3 +745,20 @@ _add_rt2("C16", "named probe abort-nested-coroutines (corr/C16_cancel.py; hunt r
 _add_rt2("C17", "the stages of the check (fault-sequences, exhaustive, random) run under the wall-clock backstop C08_world.run_stages: a tree that blocks the "
                 "loop's thread inside one iteration (where the progress-based bounds never get control) yields c17:never-completes:stage:<name> after the cap "
                 "and the check finishes (mutation trial: AsyncMap.__anext__ waiting on a threading.Event - reported in 102 s).", None)
+_add_rt2("C09", "finding E2 for MUTATIONS inside the model (AsyncExecE2.lean: executeSerial - the failing list field first, then the serial chain over the "
+                "remaining fields): Props/C09_e2.lean e2_serial_overlap_witness / e2_serial_overlap_outcome (`mutation { m1 { a } m2 }`: `call m2` precedes "
+                "`done m1[0].a`, the response is assembled without it), e2_blocking_serial_witness (BlockingExecutor strictly serial), serial_order_e2_refuted "
+                "(the statement of serial_order is FALSE once a list completion may raise after sub-resolvers started). Tied by the mutation half of the stage "
+                "e2-model (56 operations, every completion order on the manual executor: status, data, errors, queue sizes, call/done trace; verdict = the "
+                "known finding E2 under c09:not-serial:threadpool:completion-raises-after-sub-resolvers).",
+         "The failing field must be the FIRST mutation field in the model (a failing field behind a deferred one would have to travel inside the serial "
+         "callback's queue of plain fields).")
+_add_rt2("C16", "the MECHANISM of N7 as a small event-queue model (AsyncCancel.lean: FIFO ready queue, first steps of the children's tasks, Task.cancel() on "
+                "unstarted / suspended tasks, gather forwarding the cancellation vs. a shielded gather whose waiter is woken behind the queued first steps): "
+                "Props/C16_cancel.lean (decide, n <= 4) and Props/C16_cancel_n.lean - forwarded_cancel_kills_unstarted_children (today: for EVERY k entered and "
+                "r unstarted children the k get their end hook, the r never do; forwarded_cancel_lost_count = r) against "
+                "shielded_gather_ends_every_started_field (with the patch: every child, every n, every arrival point; lost = 0), "
+                "cancel_before_first_step_loses_end_hook (the reproduced schedule), every_started_field_ends_refuted.",
+         "AsyncCancel.lean abstracts asyncio (Task.cancel / gather / shield semantics are TRUSTED as described in its header, not extracted); it is tied to "
+         "the code only through the verdicts of the probe abort-nested-coroutines with and without the patch, not by a trace correspondence.")
+
